@@ -5,6 +5,7 @@ from typing import Dict, List, Set
 from ..model import decorator_name, Program, AnalysisError, own_nodes, norm
 from ..report import Report
 from ..effects import effects_for, Effect, star
+from ..util import callee_last as _callee_last
 
 QUERIES = [('fggs.sum_product', 'sum_product'), ('fggs.sum_product', 'sum_products'), ('fggs.viterbi', 'viterbi'),
            ('fggs.factorize', 'factorize_rule'), ('fggs.factorize', 'factorize_hrg'), ('fggs.factorize', 'factorize_fgg'),
@@ -73,10 +74,50 @@ def run(prog: Program, rep: Report, tier: str) -> None:
                'result is built from fresh storage' if not bad else f"the result may be or contain {bad}: an in-place operation on the clone changes the source")
     # D4 globals
     allowed = {'G:fggs.indices.debugging_letterer', 'G:fggs.indices.debugging_letterer.*'}
+    def read_back(root: str) -> bool:
+        """Is the module-level object read by library code in a way that can reach a result?  Loads that are only the receiver of
+        a store / mutator (`G[k] = v`, `G[k] += 1`, `G.update(...)`, `G.clear()`), arguments of logging calls, or sit in functions
+        nothing in the package calls (get_stats / reset_stats accessors for the user) do not count: write-only diagnostics."""
+        parts = root[2:].split('.')
+        gname = parts[-1] if parts[-1] != '*' else parts[-2]
+        # names used anywhere in the package (called, aliased `lower_bound = minor_min_width`, passed as a value)
+        called = {x.id for m_ in prog.modules.values() for x in ast.walk(m_.tree) if isinstance(x, ast.Name) and isinstance(x.ctx, ast.Load)} | \
+            {x.attr for m_ in prog.modules.values() for x in ast.walk(m_.tree) if isinstance(x, ast.Attribute)}
+        for g in prog.all_functions():
+            if g.is_lambda or (g.name not in called and g.parent is None and g.cls is None):
+                continue
+            pm = None
+            for x in own_nodes(g.node):
+                if not (isinstance(x, ast.Name) and x.id == gname and isinstance(x.ctx, ast.Load)):
+                    continue
+                if pm is None:
+                    from ..util import callee_last, parents
+                    pm = parents(g)
+                par = pm.get(id(x))
+                if isinstance(par, ast.Subscript) and par.value is x and isinstance(par.ctx, (ast.Store, ast.Del)):
+                    continue
+                if isinstance(par, ast.Subscript) and par.value is x and isinstance(pm.get(id(par)), ast.AugAssign) and pm.get(id(par)).target is par:
+                    continue
+                if isinstance(par, ast.Attribute) and par.value is x and par.attr in ('update', 'add', 'append', 'clear', 'extend', 'subtract', 'setdefault') \
+                        and isinstance(pm.get(id(par)), ast.Call) and isinstance(pm.get(id(pm.get(id(par)))), ast.Expr):
+                    continue
+                q = par
+                in_log = False
+                while q is not None and not isinstance(q, ast.stmt):
+                    if isinstance(q, ast.Call) and isinstance(q.func, ast.Attribute) and q.func.attr in ('debug', 'info', 'warning', 'error', 'exception', 'log'):
+                        in_log = True
+                    q = pm.get(id(q))
+                if in_log:
+                    continue
+                return True
+        return False
     for mod, fn in QUERIES:
         f = prog.func(mod, fn)
         effs = [e for e in eng.summaries[f].writes if e.root.startswith('G:') and e.root not in allowed]
-        rep.ob('C18-D4 globals', f.fq(), f"{fn} writes no module-level mutable", f.loc(), not effs, '' if not effs else f"writes {sorted({e.root for e in effs})} at {effs[0].loc}")
+        diag = [e for e in effs if not read_back(e.root)]
+        effs = [e for e in effs if e not in diag]
+        rep.ob('C18-D4 globals', f.fq(), f"{fn} writes no module-level mutable", f.loc(), not effs,
+               (f"only write-only diagnostics: {sorted({e.root for e in diag})}" if diag else '') if not effs else f"writes {sorted({e.root for e in effs})} at {effs[0].loc}, which library code reads back")
 
     # D4b state kept by a decorator: a cache in the closure of a wrapping decorator (or functools.cache / lru_cache) survives
     # the call exactly like a module-level dict: results are shared between calls and between callers
